@@ -1,4 +1,5 @@
 import ApolloModel.Proofs.SchemaBuild3
+import ApolloModel.Proofs.SchemaBuildNames
 /-
 C13 — Building from several sources is compositional.
 
@@ -210,5 +211,23 @@ example : sortBy (fun (a b : Nat × Unit) => decide (a.1 < b.1))
       ([((1, 3), ()), ((0, 7), ())].map (fun x => ((fun f => 10 * f) x.1.1 + x.1.2, x.2)))
     = (sortBy (fun a b => locLt a.1 b.1) [((1, 3), ()), ((0, 7), ())]).map (fun x => ((fun f => 10 * f) x.1.1 + x.1.2, x.2)) :=
   diag_order_concat (fun f => 10 * f) (fun _ => 10) (by intro f; omega) _ (by decide)
+
+/-! ### growth: the build verdict reads names only -/
+
+/-- Whether the builder reports an error is a function of the kinds and names in the document (definition
+    names, member / interface / operation names, in order): two documents with the same name skeleton — whatever
+    their positions, and therefore whatever the abstraction leaves out (descriptions, field types, arguments,
+    values, applied directives) — are both accepted or both rejected.  (Corollary of the specification theorem
+    `C14.schema_build_iff_spec` = `SchemaBuild.build_errors_iff_spec`, whose right-hand side reads names only.) -/
+theorem build_verdict_depends_on_names_only (ds ds' : List Def) (hwf : WellFormed ds) (hwf' : WellFormed ds')
+    (h : ds.map Def.skeleton = ds'.map Def.skeleton) :
+    (build (Builder.new false false) [ds]).errors = [] ↔ (build (Builder.new false false) [ds']).errors = [] :=
+  SchemaBuild.build_verdict_depends_on_names_only ds ds' hwf hwf' h
+
+/-- with extensions in any position: moving definitions around does not change the verdict as long as the
+    specification's order-free reading is unchanged — stated through the specification itself -/
+theorem build_verdict_is_the_specification (ds : List Def) (hwf : WellFormed ds) :
+    (build (Builder.new false false) [ds]).errors = [] ↔ BuildSpec ds :=
+  SchemaBuild.build_errors_iff_spec ds hwf
 
 end Apollo.C13
